@@ -479,11 +479,73 @@ func classify(c Case) (bool, []string) {
 			}
 		}
 	}
+	if multiSlot[c.Place] {
+		add(fmt.Sprintf("slot-instances=%d", c.instances()))
+		onlyShow := kinds["show"] > 0
+		for _, a := range c.Attrs {
+			if dynamicKind(a.Kind) && a.Kind != "show" {
+				onlyShow = false
+			}
+		}
+		if onlyShow {
+			add("slot:all-static+v-show")
+			if c.has("static", "style") {
+				add("slot:all-static+v-show+static-style")
+			}
+		}
+		usesProps := false
+		for _, a := range c.Attrs {
+			if strings.HasPrefix(a.Text, slotVar+".") || strings.HasPrefix(a.Path, slotVar+".") {
+				usesProps = true
+			}
+			for _, p := range a.Pairs {
+				if strings.HasPrefix(p.Arg, slotVar+".") {
+					usesProps = true
+				}
+			}
+		}
+		if usesProps {
+			add("slot:uses-slot-props")
+		}
+		for _, a := range c.Attrs {
+			if a.Kind != "show" || a.Gt != nil {
+				continue
+			}
+			sawFalsy, mixed, falsyFirst := false, false, false
+			var first *bool
+			for k := 0; k < c.instances(); k++ {
+				t, spec := c.lookup(a.Text, k).Truthy()
+				if !spec {
+					continue
+				}
+				if first == nil {
+					first = &t
+				} else if t != *first {
+					mixed = true
+				}
+				if t && sawFalsy {
+					falsyFirst = true
+				}
+				if !t {
+					sawFalsy = true
+				}
+			}
+			if mixed {
+				add("slot:v-show-differs-between-instances")
+			}
+			if falsyFirst {
+				add("slot:falsy-instance-before-truthy")
+				if onlyShow && c.has("static", "style") {
+					add("slot:all-static+falsy-before-truthy")
+				}
+			}
+		}
+	}
 	if boundN >= 2 {
 		add("several-bound-attributes")
 	}
 	add(fmt.Sprintf("dynamic=%d", min(dyn, 6)))
-	return dyn >= 2 || merge, cls
+	return dyn >= 2 || merge || (multiSlot[c.Place] && dyn >= 1), cls
 }
 
 // ---------------------------------------------------------------- value tables
@@ -628,6 +690,58 @@ func enumerate(rec *ev.Rec, f *findings, shard, shards int) (int, bool) {
 			}
 		}
 	}
+	// multi-slot placements: every form over the slot props x every ordered pair of `on` values
+	// (plus some triples) x placement; every instance is compared with the model of its row
+	onVals := []vals.V{vals.Bool(true), vals.Bool(false), vals.Int(0), vals.Int(1), vals.Str(""), vals.Str("x"), vals.Nil(), vals.Num("uint8", "0"), vals.Str("0"), vals.Num("float64", "0.5")}
+	var rowSets [][]vals.V
+	for _, a := range onVals {
+		for _, b := range onVals {
+			rowSets = append(rowSets, []vals.V{a, b})
+		}
+	}
+	tr, fa := vals.Bool(true), vals.Bool(false)
+	rowSets = append(rowSets, []vals.V{tr, fa, tr}, []vals.V{fa, tr, fa}, []vals.V{fa, fa, tr}, []vals.V{tr, tr, fa}, []vals.V{fa, tr, tr})
+	st := func(n, v string) Attr { return Attr{Kind: "static", Name: n, Text: v} }
+	slotForms := append(coreForms(),
+		form{"slot-all-static", func(x string) []Attr {
+			return []Attr{st("style", "color: red"), st("class", "c1"), {Kind: "show", Text: x}}
+		}},
+		form{"slot-show-first", func(x string) []Attr {
+			return []Attr{{Kind: "show", Text: x}, st("style", "color: red; padding: 1px;"), st("title", "t")}
+		}},
+		form{"slot-mixed", func(x string) []Attr {
+			return []Attr{st("style", "color: red"), {Kind: "show", Text: x}, {Kind: "bind", Name: "title", Text: slotVar + ".v"},
+				{Kind: "obj", Name: "class", Pairs: []Pair{{Key: "k1", Src: "path", Arg: x}}}, {Kind: "interp", Name: "alt", Text: "a", Path: slotVar + ".v"}}
+		}})
+	for _, place := range []string{"sloop", "sloop#", "stwice", "sdloop", "sdplain"} {
+		for _, rs := range rowSets {
+			if place == "stwice" && len(rs) != 2 {
+				continue
+			}
+			if place == "sdplain" && (len(rs) != 2 || rs[0].K != rs[1].K || rs[0].S != rs[1].S) {
+				continue // plain content sees no slot props: one value for all instances
+			}
+			for _, fm := range slotForms {
+				var rows []vals.V
+				for i, on := range rs {
+					rows = append(rows, vals.Map(map[string]vals.V{"on": on, "v": vals.Str(fmt.Sprintf("r%d", i+1))}))
+				}
+				x := slotVar + ".on"
+				d := baseData(rs[0])
+				if place == "sdplain" {
+					x = "x"
+				}
+				d[rowList] = vals.List("[]map", rows...)
+				attrs := []Attr{{Kind: "static", Name: "lang", Text: "en"}, marker()}
+				attrs = append(attrs, fm.attrs(x)...)
+				attrs = append(attrs, Attr{Kind: "static", Name: "data-b", Text: "z w"})
+				each(Case{Tag: "p", Place: place, Attrs: attrs, Data: d})
+				if !ok {
+					return n, false
+				}
+			}
+		}
+	}
 	// directives: every one alone and every compatible pair, next to one static, one interpolated,
 	// one truthy and one falsy bound attribute
 	dirs := []Attr{
@@ -708,9 +822,10 @@ func chance(t *rapid.T, label string, percent int) bool {
 }
 
 type builder struct {
-	t     *rapid.T
-	c     *Case
-	table []vals.V
+	t      *rapid.T
+	c      *Case
+	table  []vals.V
+	scoped bool // the element is scoped slot content: sp.on / sp.v are available
 }
 
 func (b *builder) newVar(v vals.V) string {
@@ -728,6 +843,9 @@ func (b *builder) anyVal(label string) vals.V {
 
 // pathFor returns a data path holding v, or now and then the loop variable.
 func (b *builder) anyPath(label string, loopVar bool) string {
+	if b.scoped && chance(b.t, label+"-sp", 45) {
+		return slotVar + "." + pick(b.t, label+"-spf", []string{"on", "v"})
+	}
 	if loopVar && chance(b.t, label+"-it", 15) {
 		return forVar
 	}
@@ -740,6 +858,7 @@ var (
 	litNames     = []string{"v-if", "v-show", "v-for", ":lang", ":class", "v-bind:id", "v-html", "v-once", "v-else", ":style"}
 	litTexts     = []string{"x", "count", "a > b", "some text", "{a: b}", "item in items", " pad "}
 	simpleVals   = []vals.V{vals.Str("hello"), vals.Str("x"), vals.Int(7), vals.Str(""), vals.Bool(true), vals.Num("float64", "0.5"), vals.Str("a b"), vals.Nil()}
+	rowOnVals    = []vals.V{vals.Int(0), vals.Int(1), vals.Str(""), vals.Str("x"), vals.Nil(), vals.Num("uint8", "0"), vals.Num("float64", "0.5"), vals.Str("0"), vals.Num("float32", "0")}
 	truthyVals   = []vals.V{vals.Bool(true), vals.Int(1), vals.Str("x"), vals.Num("uint8", "3")}
 	classKeys    = []Pair{{Key: "k1"}, {Key: "k-2", Q: true}, {Key: "k3"}, {Key: "k4", Q: true}, {Key: "is-on", Q: true}}
 	styleKeys    = []Pair{{Key: "color"}, {Key: "fontSize"}, {Key: "backgroundColor"}, {Key: "borderTopWidth"}, {Key: "width"}, {Key: "--x", Q: true},
@@ -802,7 +921,34 @@ func genCase(f *findings, table []vals.V) func(t *rapid.T) Case {
 		}
 		// placement and structural directives
 		if mode != "v-keep" {
-			c.Place = pick(t, "place", []string{"", "", "", "", "", "", "root", "slot", "slot", "slot#", "tplfor", "tplfor", "tplfor"})
+			c.Place = pick(t, "place", []string{"", "", "", "", "", "", "root", "slot", "slot#", "tplfor", "tplfor", "tplfor",
+				"sloop", "sloop", "sloop#", "stwice", "stwice", "sdloop", "sdplain"})
+		}
+		multi := multiSlot[c.Place]
+		b.scoped = c.scoped()
+		// the all-static variant: no bound or interpolated attribute at all, only v-show next to
+		// a static style / class (the same content node is then evaluated once per instance)
+		allStatic := multi && mode == "normal" && chance(t, "all-static", 30)
+		if multi {
+			n := 2
+			if c.Place != "stwice" {
+				n = rapid.IntRange(2, 3).Draw(t, "rows")
+			}
+			var rows []vals.V
+			for i := 0; i < n; i++ {
+				var on vals.V
+				switch rapid.IntRange(0, 4).Draw(t, fmt.Sprintf("row%d-on", i)) {
+				case 0, 1:
+					on = vals.Bool(false)
+				case 2, 3:
+					on = vals.Bool(true)
+				default:
+					on = pick(t, fmt.Sprintf("row%d-onv", i), rowOnVals)
+				}
+				v := pick(t, fmt.Sprintf("row%d-v", i), []vals.V{vals.Str(fmt.Sprintf("r%d", i+1)), vals.Int(i), vals.Str(""), vals.Str("b1 b2"), vals.Str("color:red")})
+				rows = append(rows, vals.Map(map[string]vals.V{"on": on, "v": v}))
+			}
+			c.Data[rowList] = vals.List("[]map", rows...)
 		}
 		var attrs []Attr
 		loop := c.Place == "tplfor"
@@ -819,12 +965,12 @@ func genCase(f *findings, table []vals.V) func(t *rapid.T) Case {
 			if len(attrs) > 0 {
 				role = attrs[0].Name
 			}
-			if !loop && (role == "" || role == "v-if") && chance(t, "for", 15) {
+			if !loop && !multi && (role == "" || role == "v-if") && chance(t, "for", 15) {
 				attrs = append(attrs, Attr{Kind: "dir", Name: "v-for", Text: forVar + " in " + forList})
 				loop = true
 			}
 			// v-once on the v-for element itself: C16's subject (nothing is rendered), not generated
-			if !(len(attrs) > 0 && attrs[len(attrs)-1].Name == "v-for") && chance(t, "once", 15) {
+			if !multi && !(len(attrs) > 0 && attrs[len(attrs)-1].Name == "v-for") && chance(t, "once", 15) {
 				attrs = append(attrs, Attr{Kind: "dir", Name: "v-once"})
 			}
 			if !voidTag[c.Tag] {
@@ -862,7 +1008,9 @@ func genCase(f *findings, table []vals.V) func(t *rapid.T) Case {
 			st := Attr{Kind: "static", Name: name, Text: pick(t, lbl+"-text", staticTexts)}
 			in := func() Attr {
 				a := Attr{Kind: "interp", Name: name, Text: pick(t, lbl+"-pre", []string{"", "a", "a ", " a", "pre-"}), Post: pick(t, lbl+"-post", []string{"", "b", " b", "b ", "-post"})}
-				if loop && chance(t, lbl+"-init", 20) {
+				if b.scoped && chance(t, lbl+"-insp", 30) {
+					a.Path = slotVar + ".v"
+				} else if loop && chance(t, lbl+"-init", 20) {
 					a.Path = forVar
 				} else {
 					a.Path = b.newVar(pick(t, lbl+"-iv", simpleVals))
@@ -877,6 +1025,9 @@ func genCase(f *findings, table []vals.V) func(t *rapid.T) Case {
 			if !dynamicOK {
 				// v-pre: static, interpolated and bracketed attributes only
 				form = pick(t, lbl+"-preform", []int{0, 2, 8})
+			}
+			if allStatic {
+				form = pick(t, lbl+"-staticform", []int{0, 0, 8})
 			}
 			switch form {
 			case 0, 1:
@@ -907,6 +1058,7 @@ func genCase(f *findings, table []vals.V) func(t *rapid.T) Case {
 		}
 		// class
 		if chance(t, "class", 60) {
+			staticOnly := !dynamicOK || allStatic
 			stc := Attr{Kind: "static", Name: "class", Text: pick(t, "class-st", []string{"s1", "s1 s2", " s1  s2 ", "s3"})}
 			bdc := func() Attr {
 				return Attr{Kind: pick(t, "class-bk", []string{"bind", "vbind"}), Name: "class", Text: func() string {
@@ -920,7 +1072,7 @@ func genCase(f *findings, table []vals.V) func(t *rapid.T) Case {
 				return Attr{Kind: pick(t, "class-ok", []string{"obj", "obj", "vobj"}), Name: "class", Pairs: b.pairs("class-pairs", classKeys, truthyVals, loop)}
 			}
 			v := rapid.IntRange(0, 6).Draw(t, "class-variant")
-			if !dynamicOK {
+			if staticOnly {
 				v = 0
 			}
 			switch v {
@@ -941,7 +1093,7 @@ func genCase(f *findings, table []vals.V) func(t *rapid.T) Case {
 			}
 		}
 		// style
-		if chance(t, "style", 60) {
+		if allStatic || chance(t, "style", 60) {
 			sts := func() Attr {
 				n := rapid.IntRange(1, 3).Draw(t, "style-n")
 				perm := rapid.Permutation(staticDecls).Draw(t, "style-decls")
@@ -968,7 +1120,7 @@ func genCase(f *findings, table []vals.V) func(t *rapid.T) Case {
 				return Attr{Kind: pick(t, "style-ok", []string{"obj", "obj", "vobj"}), Name: "style", Pairs: b.pairs("style-pairs", styleKeys, styleVals, loop)}
 			}
 			v := rapid.IntRange(0, 6).Draw(t, "style-variant")
-			if !dynamicOK {
+			if !dynamicOK || allStatic {
 				v = 0
 			}
 			switch v {
@@ -989,7 +1141,11 @@ func genCase(f *findings, table []vals.V) func(t *rapid.T) Case {
 			}
 		}
 		// v-show
-		if dynamicOK && chance(t, "show", 45) {
+		if b.scoped && (allStatic || (dynamicOK && chance(t, "show-sp", 55))) {
+			attrs = append(attrs, Attr{Kind: "show", Text: slotVar + ".on"})
+		} else if allStatic {
+			attrs = append(attrs, Attr{Kind: "show", Text: b.newVar(vals.Bool(rapid.Bool().Draw(t, "show-plain")))})
+		} else if dynamicOK && chance(t, "show", 45) {
 			switch rapid.IntRange(0, 3).Draw(t, "show-form") {
 			case 0:
 				n := rapid.IntRange(0, 3).Draw(t, "show-n")
